@@ -52,7 +52,7 @@ package vars
 //@   requires option.DefaultEncoderBufferSize <= 1099511627776 && sync.poolWF()
 //@   modifies $pooled
 //@   ensures result != nil && fresh(result) && (base(*result) == 0 || fresh(*result))
-//@   ensures !$pooled[result] && !$pooled[base(*result)]
+//@   ensures !$pooled[base(*result)]
 //@   ensures forall r int :: $pooled[r] ==> old($pooled[r])
 //@   ensures sync.poolWF()
 
@@ -60,7 +60,7 @@ package vars
 //@ func FreeBytes props C06
 //@   requires p != nil && sync.poolWF()
 //@   modifies *p, $pooled
-//@   ensures forall r int :: $pooled[r] == (old($pooled[r]) || (old(cap(*p)) <= int(option.LimitBufferSize) && (r == p || r == old(base(*p)))))
+//@   ensures forall r int :: $pooled[r] == (old($pooled[r]) || (old(cap(*p)) <= int(option.LimitBufferSize) && r == old(base(*p))))
 //@   ensures base(*p) == old(base(*p))
 //@   ensures sync.poolWF()
 
